@@ -37,6 +37,7 @@ type Engine struct {
 	monitors      []*Monitor
 	droppedCand   map[string]map[string]bool
 	mutableGlobal map[*ssa.Global]bool
+	owned         map[string]string // "pkg.Type" -> ghost field that must be 1 to touch the object
 	views         map[string]map[string]*Contract
 	viewList      []*Contract
 	initStored    map[*ssa.Global]bool
